@@ -263,32 +263,57 @@ func (ix *pkgIndex) resolveStrings(e ast.Expr, fd *ast.FuncDecl, depth int) ([]s
 // value as layout, and returns the ranged expression.
 func parseLoop(fd *ast.FuncDecl) ast.Expr {
 	var ranged ast.Expr
+	isParse := func(ce *ast.CallExpr) bool {
+		se, ok := ce.Fun.(*ast.SelectorExpr)
+		if !ok || len(ce.Args) == 0 {
+			return false
+		}
+		p, ok := se.X.(*ast.Ident)
+		return ok && p.Name == "time" && (se.Sel.Name == "ParseInLocation" || se.Sel.Name == "Parse")
+	}
 	ast.Inspect(fd.Body, func(x ast.Node) bool {
-		rs, ok := x.(*ast.RangeStmt)
-		if !ok || ranged != nil {
+		if ranged != nil {
 			return true
 		}
-		val, _ := rs.Value.(*ast.Ident)
-		if val == nil {
-			return true
+		switch st := x.(type) {
+		case *ast.RangeStmt:
+			// for _, l := range X { ... time.Parse(l, ...) }   /   for i := range X { ... time.Parse(X[i], ...) }
+			val, _ := st.Value.(*ast.Ident)
+			key, _ := st.Key.(*ast.Ident)
+			ast.Inspect(st.Body, func(y ast.Node) bool {
+				ce, ok := y.(*ast.CallExpr)
+				if !ok || !isParse(ce) {
+					return true
+				}
+				if a, ok := ce.Args[0].(*ast.Ident); ok && val != nil && a.Name == val.Name {
+					ranged = st.X
+				}
+				if ie, ok := ce.Args[0].(*ast.IndexExpr); ok && key != nil {
+					if ix, ok := ie.Index.(*ast.Ident); ok && ix.Name == key.Name {
+						ranged = ie.X
+					}
+				}
+				return true
+			})
+		case *ast.ForStmt:
+			// for i := 0; i < len(X); i++ { ... time.Parse(X[i], ...) }  (also through l := X[i])
+			ast.Inspect(st.Body, func(y ast.Node) bool {
+				ce, ok := y.(*ast.CallExpr)
+				if !ok || !isParse(ce) {
+					return true
+				}
+				arg := ce.Args[0]
+				if id, ok := arg.(*ast.Ident); ok {
+					if d := localDef(fd, id.Name); d != nil {
+						arg = d
+					}
+				}
+				if ie, ok := arg.(*ast.IndexExpr); ok {
+					ranged = ie.X
+				}
+				return true
+			})
 		}
-		ast.Inspect(rs.Body, func(y ast.Node) bool {
-			ce, ok := y.(*ast.CallExpr)
-			if !ok || len(ce.Args) == 0 {
-				return true
-			}
-			se, ok := ce.Fun.(*ast.SelectorExpr)
-			if !ok {
-				return true
-			}
-			if p, ok := se.X.(*ast.Ident); !ok || p.Name != "time" || (se.Sel.Name != "ParseInLocation" && se.Sel.Name != "Parse") {
-				return true
-			}
-			if a, ok := ce.Args[0].(*ast.Ident); ok && a.Name == val.Name {
-				ranged = rs.X
-			}
-			return true
-		})
 		return true
 	})
 	return ranged
